@@ -353,7 +353,21 @@ def check_alarms(ctx):
             at_most_one = bool(cts) and all(v[1] == 1 for v in cts.values())
             exactly_one = bool(cts) and all(v == (1, 1) for v in cts.values())
             body_ok = bool(apps)
+            member = {(f"{lv} in self.alarms", False), (f"{lv} in self._alarms", False)}
+            member_true = {(t, True) for t, _ in member}
+            if hname == "_on_s05f07" and norm(L.ast.iter) in ("list(self.alarms.keys())", "self.alarms.keys()", "self.alarms", "list(self.alarms)"):
+                # the ids are the table's own keys: an arm for an id the table does not have (a shared entry builder) is never taken
+                apps = [(n, c) for n, c in apps if not (cnd.facts(cfg, n, within=L.ast) & member)]
+                cts = cfg.loop_iteration_counts(L, lambda n: any(n is a for a, _ in apps), no_exc=True)
+                at_most_one = bool(cts) and all(v[1] == 1 for v in cts.values())
+            unknown_apps = [(n, c) for n, c in apps if hname == "_on_s05f05" and cnd.facts(cfg, n, within=L.ast) & member]
+            for n, c in unknown_apps:
+                # a requested id the table does not have: its own id with zero-length code and text (E5: a zero-length ALCD / ALTX means the value does not exist)
+                body = _alarm_body(c.args[0], lv) or {}
+                body_ok = body_ok and body.get("ALID") == lv and body.get("ALCD") in ("b''", "''", "[]", "bytes()", "None") and body.get("ALTX") in ("''", "None")
             for n, c in apps:
+                if (n, c) in unknown_apps:
+                    continue
                 body = _alarm_body(c.args[0], lv) or {}
                 alcd = body.get("ALCD", "")
                 # ALCD = code | (ALARM_SET if set else 0), spelled as a conditional expression or as two branches
@@ -362,14 +376,20 @@ def check_alarms(ctx):
             if hname == "_on_s05f07":
                 it = norm(L.ast.iter)
                 over_all = it in ("list(self.alarms.keys())", "self.alarms.keys()", "self.alarms", "list(self.alarms)", "self._alarms", "list(self._alarms.keys())", "self._alarms.keys()", "list(self._alarms)")
-                filt_ok = over_all and at_most_one and all(cnd.facts(cfg, n, within=L.ast) == {(f"self.alarms[{lv}].enabled", True)} or cnd.facts(cfg, n, within=L.ast) == {(f"self._alarms[{lv}].enabled", True)} for n, _ in apps)
+                filt_ok = over_all and at_most_one and all(cnd.facts(cfg, n, within=L.ast) - member_true == {(f"self.alarms[{lv}].enabled", True)} or cnd.facts(cfg, n, within=L.ast) - member_true == {(f"self._alarms[{lv}].enabled", True)} for n, _ in apps)
             else:
                 # requested ids in request order; all ids for an empty request
                 it = L.ast.iter
                 if isinstance(it, ast.Name):
                     alls = [n for n in cfg.real_nodes() if isinstance(n.ast, ast.Assign) and norm(n.ast.targets[0]) == it.id and ("self.alarms.keys()" in norm(n.ast.value) or norm(n.ast.value) in ("list(self.alarms)", "list(self._alarms)"))]
                     src = [n for n in cfg.real_nodes() if isinstance(n.ast, ast.Assign) and norm(n.ast.targets[0]) == it.id and norm(n.ast.value).endswith(".get()")]
-                    order_ok = exactly_one and len(alls) == 1 and cnd.holds(cfg, alls[0], f"not {it.id}") and len(src) == 1 and not cnd.facts(cfg, apps[0][0], within=L.ast)
+                    known_facts = [cnd.facts(cfg, n, within=L.ast) for n, c in apps if (n, c) not in unknown_apps]
+                    order_ok = exactly_one and len(alls) == 1 and cnd.holds(cfg, alls[0], f"not {it.id}") and len(src) == 1 and all(fs <= {(f"{lv} in self.alarms", True), (f"{lv} in self._alarms", True)} for fs in known_facts)
+                    # the ids come from the host: an id the table does not have must not be looked up
+                    guarded = all(fs & {(f"{lv} in self.alarms", True), (f"{lv} in self._alarms", True)} for fs in known_facts)
+                    ctx.ob("C13.P1", f.qualname, guarded, "an alarm is looked up only when the table has the requested id" if guarded else
+                           f"`self.alarms[{lv}]` is read for every requested id: an S5F5 that names an id the equipment does not have raises KeyError in the handler, the request is aborted (S5F0) and the known alarms it also asked for are not listed",
+                           key="s5f5-unknown-id", where=f.where)
         ctx.ob("C13.P3", f.qualname, body_ok, "each listed alarm carries its id, text and ALCD with bit 7 = current set state" if body_ok else "the alarm list entries do not carry id/text/current set state", key="list-body", where=f.where)
         if hname == "_on_s05f07":
             ctx.ob("C13.P3", f.qualname, filt_ok, "S5F8 lists exactly the alarms whose enabled flag is set" if filt_ok else "S5F7 does not filter the alarm table by the enabled flag (and nothing else)", key="s5f7-filter", where=f.where)
